@@ -169,7 +169,8 @@ def check(job):
             bad.append(({"form:staleAfterEdit", "switch:fixedToFree"}, {"fixed_flag": sw2["fixed"], "expected_symbols": sorted(base["symbols"]), "observed_symbols": sw2["symbols"]}))
     # spec cross-check: the original dump must be what the spec expects (ties to C04/C07)
     tags_ops = {"op:" + o["k"] for o in lay["ops"]}
-    if not fixed and free_undetectable(phys):
+    # ... or the reference rendering itself offers no free-form cue (then its dump is the misclassified one)
+    if (not fixed and free_undetectable(phys)) or free_undetectable(stmts):
         tags_ops.add("form:freeUndetectable")
     joins = [o["at"] for o in lay["ops"] if o["k"] == "join"]
     for j in joins:
